@@ -39,6 +39,20 @@ FIXED = [
  ("C10", "fix: the LP reader never recognised the INT spelling of the INTEGER section", "C10|LP|valid-file-rejected(INT)", "the INT spelling of the INTEGER section keyword was never recognised"),
  ("C08", "fix: the LP writer named the objective \"obj\" even when a row has that name", "C08|LP|own-output-rejected", "a row named obj clashed with the default objective name in the LP writer: own output rejected"),
  ("C09", "fix: the MPS writer turned a range row with range 0 into a G row", "C09|MPS|row = (G ...) != expected (R ...)", "an R row with range 0 was written without RANGES record and came back as G"),
+ ("C16", "fix: QScopy_prob dropped the iteration, time and objective limits", "C16|copy|differs:params", "QScopy_prob did not carry max-iterations, max-time and objective limits to the copy"),
+ ("C11", "fix: a literal with zero denominator killed the process with SIGFPE", "C11|asan:FPE|mpq_EGlpNumReadStrXc>mpq_ILLget_value>mpq_ILLread_lp_state_value", "a literal p/0 in an LP/MPS file raised SIGFPE inside GMP"),
+ ("C11", "fix: recording a parse error on an empty line read one byte before the buffer", "C11|asan:heap-buffer-overflow|mpq_ILLformat_error_create>mps_err>mpq_ILLmps_warn", "error collector: theLine[len-1] read with len == 0"),
+ ("C11", "fix: parse error messages were formatted into a 256 byte stack buffer with vsprintf", "C11|asan:stack-buffer-overflow|mps_err>mpq_ILLmps_error>mpq_ILLlib_readbasis", "long names overflowed error_desc[256] in lp_err / mps_err"),
+ ("C11", "fix: data warnings were formatted into a 256 byte stack buffer with vsprintf", "C11|asan:stack-buffer-overflow|ILLmsg>mpq_ILLdata_warn>transferObjective", "long names overflowed error_desc[256] in ILLmsg"),
+ ("C11", "fix: a basis file with the wrong number of basic variables was accepted", "C11|asan:SEGV|init_matrix>ILLfactor_try>mpq_ILLfactor", "a basis file leaving != nrows basic variables was accepted and crashed the next solve"),
+ ("C11", "fix: the simplex start message overflowed a 256 byte buffer for long problem names", "C11|asan:stack-buffer-overflow|mpq_ILLsimplex", "display on + problem name > 220 chars overflowed a 256 byte buffer"),
+ ("C20", "fix: two error paths wrote to stderr behind the log handler's back", "C20|read_prob|stderr", "QSread_prob called perror() for a missing file; ILL_ERROR used fprintf(stderr)"),
+ ("C18", "fix: QSexact_solver leaked the basis of an earlier precision level", "C18|leak|ILLutil_allocrus>mpf_QSget_basis>QSexact_solver", "basis of an earlier mpf level overwritten without free"),
+ ("C18", "fix: QSerror_memory_free leaked the text of every collected error", "C18|leak|ILLutil_allocrus>mpq_ILLformat_error_create>mpq_ILLadd_error_to_memory", "error memory freed its list nodes but not their strings"),
+ ("C18", "fix: the MPS reader leaked its working numbers and the OBJNAME copy on error returns", "C18|leak|ILLutil_allocrus>ILLutil_str>read_mps_objname", "MPS reader: early returns after EGlpNumInitVar; OBJNAME string never freed"),
+ ("C18", "fix: the LP reader leaked three numbers on \"Coefficient without variable\"", "C18|leak|mpq_ILLread_one_constraint>read_constraints>mpq_ILLread_lp", "LP reader: return from the middle of ILLread_constraint_expr"),
+ ("C18", "fix: QSexact_verify leaked a basis and dereferenced NULL for a basis of the wrong size", "C18|leak|ILLutil_allocrus>dbl_QSget_basis>QSexact_verify", "QSexact_verify overwrote the caller's basis pointer with a fetched basis (leak; NULL deref for mismatching sizes)"),
+ ("C18", "fix: QSopt_pivotin_row/col leaked six numbers when there was nothing to pivot", "C18|leak|mpq_QSopt_pivotin_row", "ILLsimplex_pivotin early returns skipped EGlpNumClearVar"),
 ]
 OPEN = []
 out = []
